@@ -75,6 +75,11 @@ func genRenStep(r *hx.Rand) renStep {
 		s.Op, s.Code, s.Text = "String", hx.Pick(r, []int{200, 404}), hex.EncodeToString([]byte(hx.Pick(r, renTexts)))
 	case x < 15:
 		s.Op, s.Code, s.Text = "HTML", 200, hex.EncodeToString([]byte(hx.Pick(r, renTexts)))
+	case x == 15 && r.Chance(1, 2):
+		s.Op, s.Code = "SendStatus", hx.Pick(r, []int{200, 201, 404, 418, 500, 599, 299})
+		if r.Chance(1, 4) {
+			s.Op, s.Code = "NoContent", 204
+		}
 	case x < 17:
 		s.Op, s.Code, s.Text = "Data", hx.Pick(r, []int{200, 206}), hex.EncodeToString([]byte(hx.Pick(r, renTexts)))
 		s.CT = hx.Pick(r, []string{"", "application/x-bin", "text/plain"})
@@ -150,6 +155,10 @@ func runRenStep(s renStep) (o renObs) {
 			o.err = c.HTML(s.Code, unhex(s.Text))
 		case "Data":
 			o.err = c.Data(s.Code, s.CT, []byte(unhex(s.Text)))
+		case "SendStatus":
+			o.err = c.SendStatus(s.Code)
+		case "NoContent":
+			c.NoContent()
 		case "JSON":
 			o.err = callJSON(c, s.J, s.J.V.val(), unhex(s.J.Extra))
 		}
@@ -194,8 +203,14 @@ func emitRen(id string, k *renCase, st *hx.Stats) string {
 			enc, encErr := encRef(s.J.Variant, s.J.V.val())
 			l.Tok("J").Nat(s.J.Variant).Nat(s.J.Code).Bool(s.J.HasExtra).Str(unhex(s.J.Extra)).Bool(encErr == nil).Bytes(enc)
 		default:
-			kind := map[string]int{"String": 0, "HTML": 1, "Data": 2}[s.Op]
-			l.Tok("T").Nat(kind).Nat(s.Code).Str(s.CT).Str(unhex(s.Text))
+			kind := map[string]int{"String": 0, "HTML": 1, "Data": 2, "SendStatus": 3, "NoContent": 4}[s.Op]
+			text := unhex(s.Text)
+			if s.Op == "SendStatus" { // documented: the standard status text is the body (net/http's table is a parameter)
+				if text = http.StatusText(s.Code); text == "" {
+					text = strconv.Itoa(s.Code) + " Status Code"
+				}
+			}
+			l.Tok("T").Nat(kind).Nat(s.Code).Str(s.CT).Str(text)
 		}
 	}
 	in := l.String()
